@@ -249,7 +249,7 @@ def pattern_cases():
 
 
 def jobs(tier, seed):
-    n, shards = (4800, 8) if tier == "quick" else (64000, 16)
+    n, shards = (4800, 8) if tier == "quick" else (256000, 16)
     out = [{"name": "patterns", "kind": "patterns"}, {"name": "bad-fixed", "kind": "bad"}]
     out += [{"name": f"hyp-{i}", "kind": "hyp", "seed": seed * 1000 + i, "n": n // shards} for i in range(shards)]
     return out
